@@ -839,7 +839,7 @@ def textbook_any(name, H, dist=None):
         den = ent(P.sum(0)) + ent(P.sum(1))
         return None if den < 1e-300 else 2 * (1 - ent(P) / den)
     if name == "slr":
-        return loglik_ratio(H, dist)
+        return slr_def(H, dist)
     sig = 0.05 * np.array(H.shape)          # SIGMA_FACTOR * bins, PER AXIS
     if name == "pmi":
         return loglik_ratio(H, gaussian_filter_def(H / H.sum(), sig))
@@ -862,8 +862,7 @@ def nonsquare_measures(ck):
             H[rng.random(shape) < 0.6] = 0
         if H.sum() == 0:
             H[0, 0] = 1
-        q = rng.random(shape) + 0.05
-        q /= q.sum()
+        q, qkind = random_dist(rng, shape, n)
         # a SEQUENCE of histograms of different total mass (scaled, thinned, one extra bin) for ONE object per measure
         seq = [H, np.floor(H / 2) + (rng.random(shape) < 0.1), H * 3.0 + (rng.random(shape) < 0.2) * 0.5]
         for Hk in seq:
@@ -876,7 +875,8 @@ def nonsquare_measures(ck):
                 ck.fail("measures/nonsquare-raises/%s" % name, "constructing %s raised %s: %s" % (name, type(e).__name__, e), {"measure": name, "shape": list(shape)})
                 continue
             for step, Hk in enumerate(seq):
-                ck.count(("nonsquare", n, name, step), nontrivial=True, bucket="measures:nonsquare:%s" % name)
+                ck.count(("nonsquare", n, name, step), nontrivial=True,
+                         bucket="measures:nonsquare:%s" % (name if name != "slr" else "slr:dist-" + qkind))
                 replay = {"measure": name, "shape": list(shape), "dist": q.tolist() if name == "slr" else None,
                           "sequence": "one %s object evaluated on %d histograms of total mass %s; this is evaluation #%d" % (name, len(seq), [float(x.sum()) for x in seq], step + 1),
                           "histograms": [x.tolist() for x in seq[:step + 1]]}
@@ -889,7 +889,9 @@ def nonsquare_measures(ck):
                 if want is None:
                     continue
                 if not math.isfinite(v) or abs(v - want) > 1e-8 * max(1.0, abs(want)):
-                    ck.fail("measures/%s/%s" % (name, "nonsquare" if step == 0 else "later-evaluation-of-same-object"),
+                    onzero = name == "slr" and bool(((np.asarray(q) == 0) & (Hk > 0)).any())
+                    ck.fail("measures/%s/%s%s" % (name, "nonsquare" if step == 0 else "later-evaluation-of-same-object",
+                                                  "/mass-on-zero-probability-cell-of-dist" if onzero else ""),
                             "%s object, evaluation #%d, on a %dx%d histogram of total mass %g returned %r, textbook value %r%s"
                             % (name, step + 1, shape[0], shape[1], Hk.sum(), v, want,
                                "" if step == 0 else " (earlier evaluations of this object were on histograms of mass %s)" % [float(x.sum()) for x in seq[:step]]),
@@ -1424,11 +1426,45 @@ ALL_SIMS = ["cc", "cr", "crl1", "mi", "nmi", "pmi", "dpmi", "slr"]
 
 
 def slr_def(H, q):
-    """supervised log-likelihood ratio: sum H log(q / (q_row q_col)) / sum H"""
+    """supervised log-likelihood ratio, as documented: sum H log(max(q / (q_row q_col), TINY)) / sum H with the marginals
+    floored at TINY.  On a cell to which the model gives probability ZERO the loss is -log(TINY) (about 708 per count):
+    intensity pairs excluded by the model are heavily penalised, never ignored."""
     q = np.asarray(q, dtype=float)
-    qr = q.sum(1, keepdims=True)
-    qc = q.sum(0, keepdims=True)
-    return float(np.sum(H * np.log(q / (qr * qc))) / H.sum())
+    tiny = float(TINY)
+    qr = np.maximum(q.sum(1, keepdims=True), tiny)
+    qc = np.maximum(q.sum(0, keepdims=True), tiny)
+    with np.errstate(all="ignore"):
+        ratio = np.maximum(q / qc / qr, tiny)
+    H = np.asarray(H, dtype=float)
+    return float(np.sum(H * np.log(ratio)) / max(H.sum(), tiny))
+
+
+DIST_KINDS = ["dense", "sparse", "band", "empty-row-col", "small-values", "permutation"]
+
+
+def random_dist(rng, shape, n):
+    """A joint distribution model for `slr`, cycling through structural classes: strictly positive; random exact zeros;
+    banded (only near-diagonal pairs possible); a whole row and column of zeros (marginal 0 -> TINY floor); entries
+    spread over 200 orders of magnitude; one possible partner per intensity."""
+    kind = DIST_KINDS[n % len(DIST_KINDS)]
+    a, b = shape
+    q = rng.random(shape) + 0.05
+    if kind == "sparse":
+        q[rng.random(shape) < 0.5] = 0.0
+    elif kind == "band":
+        ii, jj = np.indices(shape)
+        q[np.abs(ii * max(b, 1) - jj * max(a, 1)) > max(a, b)] = 0.0
+    elif kind == "empty-row-col":
+        q[int(rng.integers(a)), :] = 0.0
+        q[:, int(rng.integers(b))] = 0.0
+    elif kind == "small-values":
+        q = q * 10.0 ** rng.integers(-200, 1, size=shape)
+    elif kind == "permutation":
+        ii, jj = np.indices(shape)
+        q[(ii - jj) % min(a, b) != int(rng.integers(0, min(a, b)))] = 0.0
+    if q.sum() <= 0:
+        q[0, 0] = 1.0
+    return q / q.sum(), kind
 
 
 def reuse(ck):
@@ -1446,8 +1482,7 @@ def reuse(ck):
         H = rng.integers(0, 9, size=shape).astype(float)
         if H.sum() == 0:
             H[0, 0] = 1
-        q = rng.random(shape) + 0.05
-        q /= q.sum()
+        q, qkind = random_dist(rng, shape, n // 2)     # n // 2: every class with renormalize on and off
         q0, H0 = q.copy(), H.copy()
         renorm = bool(n % 2) 
         for name in ALL_SIMS:
@@ -1482,7 +1517,8 @@ def reuse(ck):
                     want *= H0.sum()
                 for which, v in (("first", v1), ("second-object", v2)):
                     if abs(v - want) > 1e-9 * max(1.0, abs(want)):
-                        ck.fail("measures/slr/%s" % which, "slr (%s use of the model, renormalize=%s) is %r, textbook value %r" % (which, renorm, v, want), replay)
+                        onzero = bool(((q0 == 0) & (H0 > 0)).any())
+                        ck.fail("measures/slr/%s%s" % (which, "/mass-on-zero-probability-cell-of-dist" if onzero else ""), "slr (%s use of the model, renormalize=%s) is %r, textbook value %r" % (which, renorm, v, want), replay)
     # registration level: two objects / resolution levels sharing the caller's arrays
     for n in range(ck.n(12, 80)):
         sshape = tuple(int(v) for v in rng.integers(3, 6, size=3))
@@ -1490,8 +1526,7 @@ def reuse(ck):
         di = rng.integers(0, fb, size=sshape).astype(np.int16)
         dj = rng.integers(0, tb, size=sshape).astype(np.int16)
         di.flat[0], di.flat[-1], dj.flat[0], dj.flat[-1] = 0, fb - 1, 0, tb - 1
-        q = rng.random((fb, tb)) + 0.05
-        q /= q.sum()
+        q, qkind = random_dist(rng, (fb, tb), n // 3)  # slr is used when n % 3 == 0
         fmask = rng.random(sshape) < 0.8
         fmask.flat[0] = fmask.flat[-1] = True
         keep = {"from": di.copy(), "to": dj.copy(), "dist": q.copy(), "mask": fmask.copy()}
